@@ -76,6 +76,15 @@ class Ctx:
             if mo != io:
                 idx = next((i for i, (a, b) in enumerate(zip(mo, io)) if a != b), None)
                 self.disagree(suite, s, io, mo, idx)
+                cl = getattr(self, "classify_disagreement", None)
+                if cl is not None and idx is not None:
+                    sig = cl(io[idx], mo[idx])
+                    if sig is not None and "W go" in s:
+                        g = s.index("W go")
+                        self.fail(sig, {"suite": suite, "header": [x[2:] for x in s[1:g]],
+                                        "ops": [x[2:] for x in s[g + 1:idx + 1]],
+                                        "detail": {"impl": io[idx][:400], "model": mo[idx][:400]},
+                                        "model_relative": True})
 
 
 def lean_stage(pid: str, extra_targets=()) -> dict:
